@@ -38,6 +38,10 @@ def run(R, tier, seed, driver_ok):
         for name in zoo.ALL:
             d = int(rng.randint(2, 5))
             X, y = zoo.blobs(rng, d, int(rng.randint(2, 4)), dyadic=True)
+            if name == 'LFDA' and rng.rand() < 0.5:
+                # one more class with a single member (the neighbour rank is clipped per class)
+                X = np.vstack([X, np.round(rng.randn(1, d) * 3 * 16) / 16]); y = np.append(y, y.max() + 1)
+                pm0 = rng.permutation(len(y)); X, y = X[pm0], y[pm0]
             n = len(X)
             sd = int(rng.randint(1 << 30))
             params = zoo.fix_params(name, zoo.default_params(name, rng, d), X, y)
